@@ -975,6 +975,41 @@ fn dump_crate<'tcx>(tcx: TyCtxt<'tcx>, name: &str) -> J {
             _ => {}
         }
     }
+    // variants of non-local enums that local bodies mention (needed to read SwitchInt tables on them)
+    let mut ext_enums = vec![];
+    {
+        let mut seen = std::collections::HashSet::new();
+        for ldid in tcx.mir_keys(()).iter() {
+            let did = ldid.to_def_id();
+            if !matches!(tcx.def_kind(did), DefKind::Fn | DefKind::AssocFn | DefKind::Closure) || !tcx.is_mir_available(did) {
+                continue;
+            }
+            let body = tcx.optimized_mir(did);
+            for decl in body.local_decls.iter() {
+                let mut t = decl.ty;
+                loop {
+                    match t.kind() {
+                        ty::Ref(_, inner, _) => t = *inner,
+                        _ => break,
+                    }
+                }
+                if let ty::Adt(def, _) = t.kind() {
+                    if def.is_enum() && !def.did().is_local() && seen.insert(def.did()) && def.variants().len() <= 64 {
+                        let mut vars = vec![];
+                        for (vi, var) in def.variants().iter_enumerated() {
+                            vars.push(J::obj(vec![
+                                ("name", J::s(var.name.as_str())),
+                                ("idx", J::i(vi.index() as i128)),
+                                ("discr", J::i(def.discriminant_for_variant(tcx, vi).val as i128)),
+                                ("nfields", J::i(var.fields.len() as i128)),
+                            ]));
+                        }
+                        ext_enums.push(J::obj(vec![("def", J::s(&path(tcx, def.did()))), ("variants", J::Arr(vars))]));
+                    }
+                }
+            }
+        }
+    }
     let mut feats = String::new();
     for (k, vopt) in tcx.sess.config.iter() {
         if k.as_str() == "feature" {
@@ -994,5 +1029,6 @@ fn dump_crate<'tcx>(tcx: TyCtxt<'tcx>, name: &str) -> J {
         ("impls", J::Arr(impls)),
         ("statics", J::Arr(statics)),
         ("aliases", J::Arr(aliases)),
+        ("ext_enums", J::Arr(ext_enums)),
     ])
 }
